@@ -36,14 +36,21 @@ P = {
  "C20": ("exploration", "grid + random + monotone-sweep monitor in the -Ofast and UBSan builds",
          "Non-negativity, 70% cap and monotonicity in the clock over a grid of ~10^7 points, random tuples and sweeps; UBSan arithmetic reports count as violations.", "4/C20"),
 }
-PENDING = {
- "C05": "check under construction (search monitor)",
- "C06": "check under construction (schedule enumeration + TSan)",
- "C08": "check under construction (mate solver oracle)",
- "C09": "check under construction (limit monitor)",
- "C10": "check under construction (sanitizer sessions)",
- "C19": "check under construction (book monitor)",
-}
+P.update({
+ "C05": ("fault_enumeration", "in-process search monitor: hook-delivered stops at exact node visits + transposition-table fault injection; output judged by rules oracle",
+         "Every go is answered by exactly one bestmove, legal per the oracle, every pv replayed on the oracle board; limits include 1 ms / negative budgets; stops are delivered deterministically at node visit k (all k=1..64 on sampled roots, random k to 10^5); table entries with illegal moves, extreme scores and stale epochs are injected under the exact keys of root/children/grandchildren.", "4/C05"),
+ "C06": ("fault_enumeration", "schedule enumeration by parking the search thread at hook points + ThreadSanitizer with one go per process",
+         "The search thread is parked at every listed schedule point while stop is delivered and executed; after release the answer must come within 50,000 node visits (logical bound) and exactly once; isready is answered while parked. Separately a TSan build with unsynchronised jitter decides race freedom of the stop signalling (reports matched by stop-flag address or stop-path frames).", "4/C06"),
+ "C08": ("exploration", "search monitor with exhaustive AND/OR mate solver as oracle",
+         "Mate-in-one roots must be answered by a mating move at every depth; every final mate announcement is decided by an independent exhaustive solver (unverified when the node budget runs out, never folded into held/violated).", "4/C08"),
+ "C09": ("exploration", "search-output monitor for depth sequence, searchmoves and termination (node-visit cap as logical witness)",
+         "info-depth sequences, searchmoves containment incl. root table entries outside the subset with and without epoch bump, depth limits beyond the internal maximum on cheap positions, termination of time/clock limits.", "4/C09"),
+ "C10": ("exploration", "ASan+UBSan build with table-bound hooks and valgrind memcheck under oracle-generated well-formed UCI sessions",
+         "Boundary-directed sessions on the real binary: 700..1500-ply games, depth limits to 100000, 218-move and ten-of-a-kind positions, forcing lines, multi-game sessions with every go argument; any ASan report, memory-kind UBSan report, intended-bound hook failure, memcheck error or abnormal exit is a violation.", "4/C10"),
+ "C19": ("exploration", "file-level differential monitor with own parser + statistical test of the sampler",
+         "Generated book files (empty, truncated, duplicate keys, zero weights): loaded multiset == complete records; contains/best/random checked against the monitor's own parse; 7-sigma binomial acceptance band over 2*10^4..2*10^5 draws per weight vector.", "4/C19"),
+})
+PENDING = {}
 
 def main():
     from vlib import checks
